@@ -58,6 +58,48 @@ def build_case(rng, spec, tier):
     }
 
 
+SHAPE_LENGTHS = {"short": 3, "74": 74, "75": 75, "148": 148, "149": 149, "223": 223}
+
+
+def shape_case(rng, perm, cls, backend):
+    """Six sibling stems of one length class inserted in the order `perm`, below one
+    prefix, then a second level below two of them: every sibling-BST shape of size
+    <= 6 for stems whose difference sits in the first block / in the tail."""
+    n = SHAPE_LENGTHS[cls]
+    stems_ = []
+    for i in range(len(perm)):
+        body = b"p:" + b"m" * (n - 4) + bytes([0x41 + i]) + b"|" if n > 4 else b"p:" + bytes([0x41 + i]) + b"|"
+        stems_.append(body)
+    head = b"s:http|h:com|h:shape|"
+    lrus = [head + stems_[i] for i in perm]
+    second = [head + stems_[perm[0]] + stems_[j] for j in perm[::-1][:3]]
+    ops = [{"op": "add_page", "lru": l, "crawled": bool(i % 2), "as_str": False} for i, l in enumerate(lrus + second)]
+    ops.append({"op": "add_links", "links": [[lrus[0], lrus[-1]], [second[0], lrus[0]]], "as_str": False})
+    ops.append({"op": "create", "prefixes": [head + stems_[perm[-1]]]})
+    cfg = {"backend": backend, "default": "domain", "encoding": "utf-8", "overwrite": False, "rules": []}
+    return {"engine": "history", "cfg": cfg, "ops": ops, "audit_every": len(ops), "aseed": rng.getrandbits(32), "shape": [cls, list(perm)]}
+
+
+def soak_case(rng, n_pages):
+    """One large history (scale-free accounting): n_pages pages from a wide grammar, link batches in between."""
+    from ..gen import g_real
+    pool = []
+    seen = set()
+    while len(pool) < n_pages:
+        l = g_real(rng, long_ok=(rng.random() < 0.02), deep=rng.random() < 0.5) + b"p:%d|" % rng.randrange(n_pages)
+        if l not in seen:
+            seen.add(l)
+            pool.append(l)
+    ops = []
+    for i in range(0, n_pages, 40):
+        chunk = pool[i:i + 40]
+        ops.append({"op": "add_pages", "lrus": chunk, "crawled": bool(rng.random() < 0.5), "as_str": False})
+        if rng.random() < 0.5 and i:
+            ops.append({"op": "add_links", "links": [[rng.choice(pool[:i + 40]), rng.choice(pool[:i + 40])] for _ in range(50)], "as_str": False})
+    cfg = {"backend": rng.choice(["file", "memory"]), "default": "domain", "encoding": "utf-8", "overwrite": False, "rules": []}
+    return {"engine": "history", "cfg": cfg, "ops": ops, "audit_every": len(ops), "aseed": rng.getrandbits(32), "soak": n_pages}
+
+
 def run_case(prop, case, spec, scratch, stats):
     """Returns (discrepancies, features, digest)."""
     props = set(spec.get("audits", [prop]))
@@ -180,6 +222,50 @@ def run_shard(prop, spec, tier, seed, shard, nshards, scratch):
     nontrivial = spec["nontrivial"]
     saved = 0
     other = Counter()
+    import itertools
+
+    extra = []
+    if tp.get("exhaustive_shapes"):
+        j = 0
+        for cls in SHAPE_LENGTHS:
+            for n in range(2, tp["exhaustive_shapes"] + 1):
+                for perm in itertools.permutations(range(n)):
+                    if j % nshards == shard:
+                        extra.append(("shape", cls, perm))
+                    j += 1
+        res["exhaustive"] = True
+    if tp.get("soak") and shard == 0:
+        extra.append(("soak", tp["soak"], None))
+    for kind, a1, a2 in extra:
+        if time.time() > deadline:
+            if kind == "shape":
+                res["exhaustive"] = False
+            res["notes"].append("shard %d hit the time cap inside the enumerated cases" % shard)
+            break
+        rng = random.Random("%s/%s/%s/%s/%s" % (seed, prop, kind, a1, a2))
+        if kind == "shape":
+            case = shape_case(rng, list(a2), a1, "file" if (len(a2) + a2[0]) % 2 else "memory")
+            stats["exhaustive_shape_cases"] += 1
+        else:
+            case = soak_case(rng, a1)
+            stats["soak_cases"] += 1
+        case["id"] = "%s/%s/%s" % (kind, a1, "".join(map(str, a2 or ())))
+        ds, feats, digest = run_case(prop, case, spec, scratch, stats)
+        res["cases"] += 1
+        if kind == "soak":
+            res["notes"].append("soak case: %s" % feats)
+        if feats and nontrivial(feats):
+            res["nontrivial"].append(digest)
+        for d in ds:
+            if prop not in d["props"] or d["kind"].startswith("KNOWN:"):
+                continue
+            entry = {"discrepancy": d, "case": case["id"]}
+            if saved < SAVE_MAX:
+                saved += 1
+                case["violation"] = d
+                entry["case_file"] = save_case(prop, seed, shard, case["id"].replace("/", "_"), case)
+            res["violations"].append(entry)
+            break
     for idx in mine:
         if time.time() > deadline:
             res["notes"].append("shard %d stopped at time cap after %d cases" % (shard, res["cases"]))
